@@ -434,7 +434,10 @@ func sweep(thorough bool) {
 				if first < 1 {
 					continue
 				}
-				for _, second := range []int{1, 30} {
+				for _, second := range []int{1, 30, int(mtu) + 50, 3 * int(mtu)} {
+					if second > 30 && mtu > 2000 {
+						continue
+					}
 					s := script{mtu: mtu, msgs: []msg{{"m", "a" + name, val(first, 1), 1, false}, {"m", "b" + name, val(second, 9), 1, false}}}
 					run(s)
 					if thorough || rem%5 == 0 {
